@@ -357,6 +357,15 @@ func (b *builder) objType(name string, t *typ) *graphql.ObjectType {
 		o.Fields[ft.name] = &graphql.FieldDefinition{
 			Type: b.gqlType(ft.t),
 			Resolve: func(ctx graphql.FieldContext) (interface{}, error) {
+				if ctx.IsSubscribe {
+					if !subscribing {
+						panic("IsSubscribe outside Subscribe")
+					}
+					return ctx.Object, nil // the event source: here the one event itself
+				}
+				if subscribing {
+					panic("resolver called without IsSubscribe during Subscribe")
+				}
 				fv := ctx.Object.(*val).fields[i]
 				*b.events = append(*b.events, sexp.T("start", pathSexp(fv.path)))
 				if fv.tag >= 0 {
@@ -544,9 +553,17 @@ func typeFeats(t *typ, feats map[string]bool) {
 // running one case
 // ---------------------------------------------------------------------------------------------
 
+// asSubscription: the next query cases with a single root field are run as ONE EVENT of a
+// subscription (graphql.Subscribe for the source, then graphql.Execute of the subscription
+// operation with the event as initial value: executeSubscriptionEvent).  Set and reset by the
+// generators around the cases they emit.
+var asSubscription bool
+
 type stuck struct{}
 
 var npanics int
+
+var subscribing bool
 
 type observation struct {
 	status string
@@ -570,15 +587,24 @@ func run(root *val, mutation bool, ranks []int, r *rng.R) observation {
 	dummy := &graphql.ObjectType{Name: "Q0", Fields: map[string]*graphql.FieldDefinition{
 		"z": {Type: graphql.IntType, Resolve: func(graphql.FieldContext) (interface{}, error) { return 0, nil }},
 	}}
+	sub := asSubscription && !mutation && len(rootT.fields) == 1
 	if mutation {
 		def.Query = dummy
 		def.Mutation = b.objType("Mutation", &rootT)
+	} else if sub {
+		def.Query = dummy
+		def.Subscription = b.objType("Subscription", &rootT)
+		r = nil // a subscription must select exactly one root field: plain spelling
 	} else {
 		def.Query = b.objType("Query", &rootT)
 	}
 	def.AdditionalTypes = b.extra
 	q := &qgen{r: r, feats: map[string]bool{}}
 	text, vars := q.document(&rootT, mutation)
+	if sub {
+		text = "subscription" + text
+		q.feats["subscription-event"] = true
+	}
 	typeFeats(&rootT, q.feats)
 	schema, err := graphql.NewSchema(def)
 	if err != nil {
@@ -635,6 +661,16 @@ func run(root *val, mutation bool, ranks []int, r *rng.R) observation {
 				}
 			}
 		}()
+		if sub {
+			// the source stream: the root resolver is called with IsSubscribe and hands back the event
+			subscribing = true
+			src, errs := graphql.Subscribe(&graphql.Request{Context: context.Background(), Schema: schema, Query: text,
+				VariableValues: vars, InitialValue: root})
+			subscribing = false
+			if len(errs) > 0 || src != root {
+				panic(fmt.Sprintf("subscribe: %v %v", errs, src))
+			}
+		}
 		r := graphql.Execute(&graphql.Request{
 			Context:        context.Background(),
 			Schema:         schema,
@@ -1154,6 +1190,8 @@ func randomRoot(r *rng.R, nroots, depth, budget int) *val {
 }
 
 func randomCase(r *rng.R, mutation bool, nroots int) sexp.Node {
+	asSubscription = !mutation && nroots == 1 && r.Chance(1, 2)
+	defer func() { asSubscription = false }()
 	root := randomRoot(r, nroots, r.Range(1, 4), r.Range(3, 12))
 	density := r.Range(0, 4)
 	k := assignTags(root, func(int) bool { return r.Intn(4) < density })
@@ -1202,6 +1240,9 @@ func main() {
 		flatFamily(h, 2, []int{0, 1, 2, 3}, false, 5, r)
 		flatFamily(h, 3, []int{0, 1, 2}, false, 5, r)
 		flatFamily(h, 2, []int{0, 1, 2}, true, 5, r)
+		asSubscription = true
+		flatFamily(h, 1, []int{0, 1, 2, 3}, false, 5, r)
+		asSubscription = false
 		if h.Thorough() {
 			flatFamily(h, 3, []int{0, 1, 2, 3}, false, 5, r)
 			flatFamily(h, 4, []int{0, 2}, false, 5, r)
@@ -1211,6 +1252,14 @@ func main() {
 		for _, t := range templates() {
 			expand(t, func(root *val) { allSchedules(h, root, false, maxProm, r) })
 		}
+		// the single-root templates once more as subscription events
+		asSubscription = true
+		for _, t := range templates() {
+			if t.name == "objlist" {
+				expand(t, func(root *val) { allSchedules(h, root, false, maxProm, r) })
+			}
+		}
+		asSubscription = false
 		// 3. random trees, random async subsets, random schedules
 		n := 6000
 		if h.Thorough() {
